@@ -57,6 +57,11 @@ def setup():
     return 0 if ok else 1
 
 
+# position of the RVA argument per operation family (see harness/src/ops_img.rs, ops_typed.rs)
+RVA_ARG = {"slice": 2, "r2f": 2, "r2v": 2, "byrva": 2, "derva": 3, "derva_copy": 3, "derva_into": 3, "derva_slice": 3,
+           "derva_slice_s": 3, "derva_cstr": 2}
+
+
 def check(pid, tier):
     t0 = time.time()
     seed = int(os.environ.get("VERIF_SEED", "20260926"))
@@ -162,6 +167,20 @@ def check(pid, tier):
                     new.append(c)
             gen_stats[gname(g)] = gen_stats.get(gname(g), 0) + len(new)
             cases += new
+    # protocol lint: an RVA argument is a u32 on both sides; a generator that emits more (the harness would
+    # truncate, the model would not) is a generator bug, not a disagreement — drop the line, count it
+    n_lint = 0
+    for c in cases:
+        for i in range(len(c) - 1, -1, -1):
+            w = c[i].split(" ")
+            pos = RVA_ARG.get(w[0])
+            if pos is not None and len(w) > pos:
+                try:
+                    if int(w[pos], 0) >= (1 << 32):
+                        del c[i]; n_lint += 1
+                except ValueError:
+                    pass
+    cov["malformed_ops_dropped"] = n_lint
     model_bin = build.model_bin()
     impl_bin = os.path.join(bindir, "impl")
     if not os.path.exists(model_bin):
